@@ -9,7 +9,7 @@ from .goworld import World, NAMES
 FRAME_ROUTES = ['to_frame', 'to_frame_go', 'iloc_all', 'getitem_all', 'rename', 'relabel', 'sort_columns', 'reindex', 'add0', 'deepcopy', 'pickle',
                 'columns_static', 'columns_go', 'row_series', 'dtypes', 'transpose2', 'iter_series0', 'set_index_less']
 FRAME_ROUTES_MORE = ['group_labels_first', 'group_labels_items_last', 'group_first', 'group_items_last', 'window_first', 'window_items_last', 'head1', 'tail1', 'loc_rows', 'drop_row',
-                     'roll_rows', 'shift0', 'fillna0', 'sort_index', 'astype_same', 'assign_same', 'from_concat_self', 'isna_neg', 'mask_row', 'dropna', 'iter_frame_group_array']
+                     'roll_rows', 'shift0', 'fillna0', 'sort_index', 'astype_same', 'assign_same', 'from_concat_self', 'isna_neg', 'mask_row', 'dropna', 'iter_frame_group_array', 'round0', 'neg_neg', 'clip_wide']
 INDEX_ROUTES = ['index_static', 'index_go', 'copy', 'rename', 'iloc_all', 'sort', 'union_self', 'deepcopy', 'pickle', 'to_series']
 
 
